@@ -916,7 +916,7 @@ class C07(Property):
         i = 0
         for comp in BRACE_COMPONENTS:
             for fld in fields:
-                for optset in ([["a", "us"], ["b", "v1"], ["e", ""]], [["a", "x/y"], ["b", "{a}"], ["e", ""]], [["b", "only"]]):
+                for optset in ([["a", "us"], ["b", "v1"], ["e", ""]], [["a", "x/y"], ["b", "{a}"], ["e", ""]], [["b", "only"]], []):
                     i += 1
                     if tier != "thorough" and i % 3:
                         continue
@@ -1136,7 +1136,8 @@ class C16(Property):
                     add(d, "%s:%s.%s" % (how, lab, k))
             if lab in ("segment", "file", "file_in_group", "gp_info", "symbol_assignment", "required_symbol", "assert"):
                 for ck in COND_KEYS:
-                    for val in ([], None, [["k", "v"]]):
+                    for val in ([], None, [["k", "v"]], [["k", 4]], [["k", True]], [[4, "v"]], [["k", None]], [["k", tree.Float("4.5")]],
+                                [["k", "v"], ["modding", False]]):
                         d = copy.deepcopy(d0)
                         rec = dict(record_sites(d))[lab]
                         rec[ck] = val
